@@ -307,3 +307,9 @@ def check(run):
     from . import c16
     run.rules_run.append("R16d")
     run.rule(c16.r16d, run, c16.registry_class(run))
+    # round 8: shared helpers decided as tables (helper_table.py)
+    from . import helper_table as _ht
+    run.rules_run.append("R19f")
+    run.rule(_ht.r_copy, run)
+    run.rules_run.append("R12f")
+    run.rule(_ht.r_multi, run)
